@@ -194,6 +194,12 @@ func hsEqual(a, b *pb.HardState) bool {
 	return a.GetTerm() == b.GetTerm() && a.GetVote() == b.GetVote() && a.GetCommit() == b.GetCommit()
 }
 
+// InitIndex/InitTerm is the log position of the bootstrap snapshot of the initial members.
+const (
+	InitIndex = 1
+	InitTerm  = 1
+)
+
 // NewWorld builds the initial world of a scenario.
 func NewWorld(sc *Scenario, mons []Monitor) *World {
 	w := &World{Sc: sc, Budget: sc.Budget, Mons: mons, Counters: map[string]int{}}
@@ -212,11 +218,14 @@ func NewWorld(sc *Scenario, mons []Monitor) *World {
 	for i := 0; i < sc.N; i++ {
 		n := &Node{ID: uint64(i + 1), Cfg: sc.cfg(i), Disk: raft.NewMemoryStorage()}
 		if member[n.ID] {
-			snap := &pb.Snapshot{Metadata: &pb.SnapshotMetadata{Index: new(uint64(0)), Term: new(uint64(0)), ConfState: proto.Clone(initCS).(*pb.ConfState)}}
+			// members start from a snapshot at (InitIndex, InitTerm) carrying the initial
+			// configuration, so that a node added later has to be brought in by snapshot
+			snap := &pb.Snapshot{Metadata: &pb.SnapshotMetadata{Index: new(uint64(InitIndex)), Term: new(uint64(InitTerm)), ConfState: proto.Clone(initCS).(*pb.ConfState)}}
 			if err := n.Disk.ApplySnapshot(snap); err != nil {
 				panic(err)
 			}
 			n.App.CS = proto.Clone(initCS).(*pb.ConfState)
+			n.App.Applied = InitIndex
 		} else {
 			n.App.CS = &pb.ConfState{}
 		}
@@ -629,12 +638,15 @@ func (w *World) crashRestart(n *Node, rec *StepRec, flags int) {
 		w.Counters["commit_repaired_on_recovery"]++
 	}
 	n.SyncedHS = cloneHS(hs) // whatever survived the crash is durable now
+	// The state machine is either durable (it resumes from min(its applied index,
+	// persisted commit)) or rebuilt from the snapshot. In both cases raft is told
+	// the index the state machine is at: Config.Applied never lies below the
+	// snapshot whose ConfState raft starts from.
 	var applied uint64
 	durable := min(n.App.Applied, hs.GetCommit())
 	if flags&CrashAppliedZero != 0 || durable <= sidx || w.confChangeInRange(n, sidx, durable) {
-		// state machine rebuilt from the snapshot; raft starts applying after it
 		w.appRestoreSnapshot(n, pb.EnsureSnapshot(snap))
-		applied = 0
+		applied = sidx
 	} else {
 		applied = durable
 	}
@@ -857,12 +869,11 @@ func (w *World) exec(ev Event, n *Node, rec *StepRec) {
 }
 
 func (w *World) doCompact(n *Node, rec *StepRec, keep int) {
-	idx := n.App.Applied
+	// never compact beyond what raft knows to be applied (after a restart with
+	// Applied unset raft re-delivers entries the state machine already holds)
+	idx := min(n.App.Applied, n.vs().Applied)
 	dv := diskView(n.Disk)
-	if idx > dv.Last() {
-		idx = dv.Last() // sync mode never gets here; async applies only stable entries
-	}
-	if idx <= dv.BaseIndex {
+	if idx > dv.Last() || idx <= dv.BaseIndex {
 		return
 	}
 	if idx != n.App.Applied {
